@@ -33,7 +33,8 @@ def fan(sel, n, r):
 
 
 def feats(f):
-    return {FE[k] for k in range(6) if f[k]}
+    from ..common import spell_features
+    return spell_features([FE[k] for k in range(6) if f[k]], sum((k + 3) * b for k, b in enumerate(f)))
 
 
 # ------------------------------------------------------------------------------------------------
